@@ -1,0 +1,115 @@
+//go:build verif
+
+package md
+
+import "strings"
+
+// Add-only verification hooks for property C35 (Markdown rendering kernels).
+// Nothing here changes behaviour; the functions only expose unexported kernels
+// of the inline and block parsers to the /verif harness.
+
+func VerifC35CanOpenCloseEmphasis(b, prev, next rune) (bool, bool) {
+	return canOpenCloseEmphasis(b, prev, next)
+}
+
+func VerifC35IsUnicodePunct(r rune) bool { return isUnicodePunct(r) }
+
+func VerifC35FindBacktickRun(s, run string, i int) int { return findBacktickRun(s, run, i) }
+
+func VerifC35NormalizeCodeSpanContent(s string) string { return normalizeCodeSpanContent(s) }
+
+func VerifC35ParseLinkTail(text string) (int, string, string) { return parseLinkTail(text) }
+
+func VerifC35EscapeHTML(s string) string { return escapeHTML(s) }
+
+func VerifC35EscapeURL(s string) string { return escapeURL(s) }
+
+func VerifC35LeadingCharRef(s string) string { return leadingCharRef(s) }
+
+func VerifC35UnescapeHTML(s string) string { return unescapeHTML(s) }
+
+func VerifC35ProcessCodeFenceInfo(s string) string { return processCodeFenceInfo(s) }
+
+// VerifC35Delim describes one entry of the delimiter stack; Typ 'x' stands for
+// a piece of ordinary text between delimiters (no stack entry).
+type VerifC35Delim struct {
+	Typ               byte
+	N                 int
+	CanOpen, CanClose bool
+}
+
+// VerifC35Tok is one output token of the buffer after processEmphasis.
+// Kind: 0 text (Len bytes), 1 emphasis start, 2 emphasis end, 3 strong start,
+// 4 strong end. Piece is the index of the buffer piece that carries it.
+type VerifC35Tok struct {
+	Kind, Piece, Len int
+}
+
+// VerifC35ProcessEmphasis builds an inline parser state with the given
+// delimiter stack and runs the real processEmphasis on it.
+func VerifC35ProcessEmphasis(ds []VerifC35Delim) []VerifC35Tok {
+	p := inlineParser{"", 0, makeDelimStack(), buffer{}}
+	for _, d := range ds {
+		if d.Typ == 'x' {
+			p.buf.push(textPiece("x"))
+			continue
+		}
+		idx := p.buf.push(textPiece(strings.Repeat(string(rune(d.Typ)), d.N)))
+		p.delims.push(&delim{typ: d.Typ, bufIdx: idx, n: d.N, canOpen: d.CanOpen, canClose: d.CanClose})
+	}
+	p.processEmphasis(p.delims.bottom)
+	var toks []VerifC35Tok
+	for i := range p.buf.pieces {
+		pc := p.buf.pieces[i]
+		pc.iterate(func(op InlineOp) {
+			switch op.Type {
+			case OpText:
+				if op.Text != "" {
+					toks = append(toks, VerifC35Tok{0, i, len(op.Text)})
+				}
+			case OpEmphasisStart:
+				toks = append(toks, VerifC35Tok{1, i, 0})
+			case OpEmphasisEnd:
+				toks = append(toks, VerifC35Tok{2, i, 0})
+			case OpStrongEmphasisStart:
+				toks = append(toks, VerifC35Tok{3, i, 0})
+			case OpStrongEmphasisEnd:
+				toks = append(toks, VerifC35Tok{4, i, 0})
+			}
+		})
+	}
+	return toks
+}
+
+// VerifC35Lines runs the real lineSplitter over text.
+func VerifC35Lines(text string) []string {
+	s := lineSplitter{text, 0, 0}
+	var out []string
+	for s.more() {
+		l, _ := s.next()
+		out = append(out, l)
+	}
+	return out
+}
+
+// VerifC35LinesWithBackup runs the lineSplitter, calling backup() once after
+// the line with index at (0-based) and reading that line again.
+func VerifC35LinesWithBackup(text string, at int) ([]string, []int) {
+	s := lineSplitter{text, 0, 0}
+	var out []string
+	var nos []int
+	i := 0
+	done := false
+	for s.more() {
+		l, no := s.next()
+		if i == at && !done {
+			done = true
+			s.backup()
+			continue
+		}
+		out = append(out, l)
+		nos = append(nos, no)
+		i++
+	}
+	return out, nos
+}
